@@ -279,7 +279,7 @@ pub struct ProfileIdc(u8);
 impl ProfileIdc {
     pub fn has_chroma_info(self) -> bool {
         match self.0 {
-            100 | 110 | 122 | 244 | 44 | 83 | 86 => true,
+            100 | 110 | 122 | 244 | 44 | 83 | 86 | 118 | 128 | 138 | 139 | 134 | 135 => true,
             _ => false,
         }
     }
